@@ -44,4 +44,14 @@ PROPS = {
         explanation="see level_text",
         trusted=["spec_prwh: the one-shot payload parser is abstract in this unit; its own contract is C03's business"],
     ),
+    "C05": dict(
+        level="model_checking",
+        level_text="Dispatch tables, GREASE/Unknown preservation, exact consumption, 'length beyond the block never yields a value', agreement of the three dispatchers and tag == wire type: unbounded deductive proof (Verus) on the real dispatcher bodies for all 65536 types and all data lengths, content parsers abstract. Content parsers, tag-specific parsers and list parsers: contracts checked by Kani on the compiled code, complete in byte contents and in every u8/u16 parameter, bounded in input length (bounded model checking, not proof).",
+        level_note="Trusted: nom shim contracts be_u16/length_data (assumed in Verus, checked by Kani shim_* harnesses on the real nom); each content parser is an uninterpreted function in Verus with the single assumed fact 'on success it returns its own variant', which is an obligation of that parser's Kani leaf harness; IANA code-point table transcribed by hand (verus/units/dispatch_ext.py TABLE); rewrites R0, R5, R6, R8 (From::from lifted to a free fn).",
+        technique="contract-based deductive verification: Verus postconditions on extracted dispatchers + Kani contract harnesses per content parser",
+        verus=["dispatch_ext"],
+        kani=[],
+        witness_search={"dispatch_ext": {"ext_search": True}},
+        explanation="see level_text",
+    ),
 }
